@@ -390,6 +390,10 @@ def check_remaining_time(ck: Checker, rid: str, s: Srv):
             return False
 
         ok = fresh(targ)
+        wallclock = [c for n_ in cfg.nodes if L in n_.loops or True for c in (calls_in(header_expr(n_)) if header_expr(n_) is not None else []) if (dotted(c.func) or '') in ('time.time', 'time', 'datetime.now', 'datetime.datetime.now')]
+        if ok and wallclock:
+            ck.ob(rid, s.enqueue, wallclock[0], False, f'`{norm_text(wallclock[0])}`: the admission wait is measured with the wall clock; a step of the system time makes a caller wait far beyond (or give up long before) its timeout — use a monotonic clock')
+            continue
         ck.ob(rid, s.enqueue, wn.ast, ok, f'the wait is bounded by `{norm_text(targ)}`, recomputed from the clock in every pass of the re-check loop (time remaining)' if ok else f'every pass of the re-check loop waits `{norm_text(targ)}` again, which is not reduced by the time already spent: a caller that keeps losing the freed slot waits far beyond its timeout')
 
 
